@@ -12,6 +12,9 @@ from . import classes as CL
 REPO = os.environ.get("PYVC_REPO", "/repo")
 
 _refs = itertools.count(1)
+# feasibility checks only prune (an `unknown` keeps the path), so a short budget is sound; refutations are fast, models of
+# sequence constraints are not
+FEAS_TIMEOUT_MS = int(os.environ.get("PYVC_FEAS_TIMEOUT_MS", "150"))
 
 
 class Res:
@@ -44,6 +47,7 @@ class State:
         self.trace = []
         self.handling = []
         self.locks = {}       # lock key -> depth (python int, paths are explicit)
+        self.genv = {}        # module-global names bound by the contract's setup (e.g. current_context)
         self.dead = False
 
     def fork(self):
@@ -56,6 +60,7 @@ class State:
         s.trace = list(self.trace)
         s.handling = list(self.handling)
         s.locks = dict(self.locks)
+        s.genv = self.genv
         s.dead = self.dead
         return s
 
@@ -214,6 +219,9 @@ class Contract:
     def loop_inv(self, k, E, old, st, a):
         return None
 
+    def loop_hints(self, k, E, old, head, st, a):
+        return []
+
     def loop_modifies(self, k, E, st, a):
         """extra heap fields / ghost names havocked by loop k: list of (VObj, field) or ('ghost', name)"""
         return []
@@ -221,6 +229,20 @@ class Contract:
     def exc_fields(self, E, st, a, qname, exc):
         """populate a callee-raised exception object at a call site"""
         return None
+
+
+class QInv:
+    """quantified loop invariant  forall k. 0 <= k < bound(st) -> body(st, k)  over a log that grows by at most one entry
+    per iteration.  inv-keep is split by hand (ground obligations instead of a skolemised quantifier):
+    frame: an arbitrary old entry k0 < bound(head) still satisfies body in the new state;  new: bound grows by <= 1 and the
+    new entry satisfies body."""
+
+    def __init__(self, bound, body):
+        self.bound, self.body = bound, body
+
+    def formula(self, st):
+        k = z3.Int("k!qinv")
+        return z3.ForAll([k], z3.Implies(z3.And(0 <= k, k < self.bound(st)), self.body(st, k)))
 
 
 class Engine:
@@ -236,18 +258,32 @@ class Engine:
         self.user_exc_classes = []
         self.stats = {"paths": 0, "pruned": 0}
         self._relevant = None
+        self._canaries = {}
 
     # ------------------------------------------------------------------------------------------------ solver helpers
-    def feasible(self, st, extra=None, timeout=1500):
+    def feasible(self, st, extra=None, timeout=FEAS_TIMEOUT_MS):
         s = z3.Solver()
         s.set("timeout", timeout)
         for c in st.pc:
-            s.add(c)
+            if not _has_quantifier(c):     # quantified axioms are left out: fewer constraints can only keep more paths
+                s.add(c)
         if extra is not None:
             s.add(extra)
         self.feas_checks += 1
         r = s.check()
         return r != z3.unsat
+
+    def induction(self, st, name, P, n):
+        """lemma by induction on 0..n: obligations P(0) and P(j) => P(j+1) for 0 <= j < n (fresh j), discharged from the
+        current path condition; returns the universally quantified conclusion for the caller to assume.  The induction
+        principle itself is the only thing trusted."""
+        j = fresh("j_ind", IntS)
+        self.oblige(st, "lemma:%s[base]" % name, P(z3.IntVal(0)), kind="lemma")
+        s2 = st.fork()
+        s2.assume(0 <= j, j < n, P(j))
+        self.oblige(s2, "lemma:%s[step]" % name, P(j + 1), kind="lemma")
+        q = z3.Int("q!" + name)
+        return z3.ForAll([q], z3.Implies(z3.And(0 <= q, q <= n), P(q)))
 
     def branch(self, st, cond):
         """fork on a z3 Bool; returns list of (state, python bool) for the feasible sides"""
@@ -258,7 +294,7 @@ class Engine:
             return [(st, False)]
         out = []
         t = self.feasible(st, cond)
-        f = self.feasible(st, z3.Not(cond))
+        f = self.feasible(st, z3.Not(cond)) if t else True    # pc is feasible: if one side is not, the other is
         if t and f:
             s2 = st.fork()
             st.assume(cond)
@@ -277,6 +313,11 @@ class Engine:
         if isinstance(goal, bool):
             goal = z3.BoolVal(goal)
         full = "%s:%s" % (self.cur.name if self.cur else "?", name)
+        if z3.is_and(goal) and goal.num_args() > 1 and kind not in ("canary", "vacuity"):
+            # conjunctions are proved conjunct by conjunct (smaller queries are the stable ones)
+            for i, g in enumerate(goal.children()):
+                self.obligations.append(Obligation("%s/%d" % (full, i), st.pc, g, info=dict(info or {}, trace=list(st.trace)), kind=kind))
+            return None
         ob = Obligation(full, st.pc, goal, info=dict(info or {}, trace=list(st.trace)), kind=kind)
         self.obligations.append(ob)
         return ob
@@ -369,6 +410,8 @@ class Engine:
     def lookup_name(self, name, st, module):
         if name in st.env:
             return st.env[name]
+        if name in st.genv:
+            return st.genv[name]
         return self.module_name(module, name)
 
     def module_name(self, module, name):
@@ -413,6 +456,8 @@ class Engine:
             return g(self) if callable(g) else g
         if CL.known(q):
             return self.class_value(q)
+        if any(g.startswith(q + ".") for g in self.R.globals):
+            return VModule(q)      # namespace of symbolic globals (e.g. Pyro5.config)
         if q in self.R.contracts or q in self.R.specs:
             return VFunc(q)
         if q in self.R.models:
@@ -557,7 +602,7 @@ class Engine:
                                 if len(rs) == 1 and rs[0].exc is None:
                                     return [Res(st, rs[0].val)]
             raise Unsupported("class attribute %s" % q)
-        if isinstance(v, (VBytes, VStr, VTuple, VList, VInt, VJoinList, VSeq, VSet, VOpt, VReal)):
+        if isinstance(v, (VBytes, VStr, VTuple, VList, VInt, VJoinList, VSeq, VSet, VReal)):
             return [Res(st, VBound(v, name))]
         if isinstance(v, VOpaque):
             h = self.R.specs.get("U.getattr")
@@ -566,6 +611,19 @@ class Engine:
             raise Unsupported("attribute %s of opaque value" % name)
         if isinstance(v, VNone):
             return [self.raise_(st, "builtins.AttributeError")]
+        if isinstance(v, VFunc):
+            q = v.qname + "." + name
+            if q in self.R.specs or q in self.R.contracts:
+                return [Res(st, VFunc(q))]
+            raise Unsupported("attribute %s" % q)
+        if isinstance(v, VOpt):
+            out = []
+            for s2, isnone in self.branch(st, v.isnone):
+                if isnone:
+                    out.append(self.raise_(s2, "builtins.AttributeError"))
+                else:
+                    out.extend(self.getattr(s2, v.val, name, node))
+            return out
         raise Unsupported("attribute %s of %r" % (name, v))
 
     def ev_BoolOp(self, node, st, module):
@@ -637,8 +695,27 @@ class Engine:
                     terms.append((2 ** k) * ((x / (2 ** k)) % 2))
                 cc >>= 1
                 k += 1
-            return z3.Sum(terms) if terms else z3.IntVal(0)
+            return (z3.Sum(terms) if len(terms) > 1 else terms[0]) if terms else z3.IntVal(0)
         return x - self.bit_and(x, ~c)
+
+    BIT_LEMMA_WIDTH = 16
+
+    def bit_lemmas(self, st, x, c, r, is_and):
+        """true facts of integer arithmetic about r = x & c / r = x | c for a constant c (bit k of y is (y div 2^k) mod 2):
+        bit k of r is bit k of x masked / forced by bit k of c, for k < 16; and the order facts.  Added to the path as
+        lemmas because the solvers do not derive div/mod identities unprompted."""
+        for k in range(self.BIT_LEMMA_WIDTH):
+            ck = (c >> k) & 1
+            bx = (x / (2 ** k)) % 2
+            br = (r / (2 ** k)) % 2
+            if is_and:
+                st.assume(br == (bx if ck else 0))
+            else:
+                st.assume(br == (1 if ck else bx))
+        if is_and:
+            st.assume(z3.Implies(x >= 0, z3.And(r >= 0, r <= x)))
+        else:
+            st.assume(z3.Implies(x >= 0, z3.And(r >= x, r <= x + c)))
 
     def bit_or(self, x, c):
         if c >= 0:
@@ -661,16 +738,11 @@ class Engine:
                     f = {ast.BitAnd: operator.and_, ast.BitOr: operator.or_, ast.LShift: operator.lshift,
                          ast.RShift: operator.rshift, ast.BitXor: operator.xor}[type(op)]
                     return [Res(st, VInt(f(ca, cb)))]
-                if isinstance(op, ast.BitAnd):
-                    if cb is not None:
-                        return [Res(st, VInt(self.bit_and(a.e, cb)))]
-                    if ca is not None:
-                        return [Res(st, VInt(self.bit_and(b.e, ca)))]
-                if isinstance(op, ast.BitOr):
-                    if cb is not None:
-                        return [Res(st, VInt(self.bit_or(a.e, cb)))]
-                    if ca is not None:
-                        return [Res(st, VInt(self.bit_or(b.e, ca)))]
+                if isinstance(op, (ast.BitAnd, ast.BitOr)) and (ca is not None or cb is not None):
+                    x, c = (a.e, cb) if cb is not None else (b.e, ca)
+                    r = self.bit_and(x, c) if isinstance(op, ast.BitAnd) else self.bit_or(x, c)
+                    self.bit_lemmas(st, x, c, r, isinstance(op, ast.BitAnd))
+                    return [Res(st, VInt(r))]
                 raise Unsupported("bit operation on two symbolic ints at line %d" % node.lineno)
             if isinstance(op, (ast.FloorDiv, ast.Mod)):
                 out = []
@@ -696,7 +768,10 @@ class Engine:
         if isinstance(a, VStr) and isinstance(b, VStr) and isinstance(op, ast.Add):
             return [Res(st, VStr(z3.Concat(a.e, b.e)))]
         if isinstance(a, VBytes) and isinstance(b, VBytes) and isinstance(op, ast.Add):
-            return [Res(st, VBytes(z3.Concat(a.e, b.e), "bytearray" if a.kind == "bytearray" else "bytes"))]
+            kind = "bytearray" if a.kind == "bytearray" else "bytes"
+            if a.units is not None and b.units is not None:
+                return [Res(st, VBytes.from_units(a.units + b.units, kind))]
+            return [Res(st, VBytes(z3.Concat(a.e, b.e), kind))]
         if isinstance(a, VBytes) and isinstance(b, VInt) and isinstance(op, ast.Mult):
             ca, cb = None, self._const_int(b)
             if cb is not None and cb <= 64:
@@ -804,6 +879,10 @@ class Engine:
         if isinstance(a, VStr) and isinstance(b, VStr):
             return a.e == b.e
         if isinstance(a, VBytes) and isinstance(b, VBytes):
+            if a.units is not None and b.units is not None:
+                if len(a.units) != len(b.units):
+                    return z3.BoolVal(False)
+                return z3.And([x == y for x, y in zip(a.units, b.units)]) if a.units else z3.BoolVal(True)
             return a.e == b.e
         if isinstance(a, (VTuple, VList)) and isinstance(b, (VTuple, VList)):
             if type(a) is not type(b) or len(a.items) != len(b.items):
@@ -977,10 +1056,19 @@ class Engine:
             if isinstance(v, VInt):
                 return v.e
             raise Unsupported("slice bound %r" % (v,))
-        if isinstance(base, VBytes):
-            return [Res(st, VBytes(seq_slice(base.e, ie(lo), ie(hi)), base.kind))]
-        if isinstance(base, VStr):
-            return [Res(st, VStr(seq_slice(base.e, ie(lo), ie(hi))))]
+        if isinstance(base, VBytes) and base.units is not None:
+            cl = None if lo is None or isinstance(lo, VNone) else self._const_int(lo)
+            ch = None if hi is None or isinstance(hi, VNone) else self._const_int(hi)
+            if (lo is None or isinstance(lo, VNone) or cl is not None) and (hi is None or isinstance(hi, VNone) or ch is not None):
+                return [Res(st, VBytes.from_units(base.units[cl:ch], base.kind))]
+        if isinstance(base, (VBytes, VStr)):
+            l, h = ie(lo), ie(hi)
+            if (l is None or self.nonneg(st, l)) and (h is None or self.nonneg(st, h)):
+                # for non-negative bounds s[l:h] is exactly extract(s, l, h-l): SMT-LIB's extract clamps like Python
+                t = simple_slice(base.e, l, h)
+            else:
+                t = seq_slice(base.e, l, h)
+            return [Res(st, VBytes(t, base.kind) if isinstance(base, VBytes) else VStr(t))]
         if isinstance(base, (VTuple, VList)):
             l, h = (None if lo is None else self._const_int(lo)), (None if hi is None else self._const_int(hi))
             if (lo is None or l is not None) and (hi is None or h is not None):
@@ -988,6 +1076,12 @@ class Engine:
         if isinstance(base, VSeq):
             return [Res(st, VSeq(seq_slice(base.e, ie(lo), ie(hi)), base.wrap))]
         raise Unsupported("slice of %r at line %d" % (base, node.lineno))
+
+    def nonneg(self, st, e):
+        e2 = z3.simplify(e)
+        if z3.is_int_value(e2):
+            return e2.as_long() >= 0
+        return not self.feasible(st, e < 0)
 
     def index(self, st, base, idx, node):
         if isinstance(base, (VTuple, VList)):
@@ -997,6 +1091,11 @@ class Engine:
                     return [Res(st, base.items[c])]
                 return [self.raise_(st, "builtins.IndexError")]
             raise Unsupported("symbolic index into tuple")
+        if isinstance(base, VBytes) and base.units is not None and self._const_int(idx) is not None:
+            c = self._const_int(idx)
+            if -len(base.units) <= c < len(base.units):
+                return [Res(st, VInt(base.units[c]))]
+            return [self.raise_(st, "builtins.IndexError")]
         if isinstance(base, (VBytes, VStr)) and isinstance(idx, VInt):
             ln = z3.Length(base.e)
             out = []
@@ -1257,14 +1356,21 @@ class Engine:
         # normal exit
         s1 = st.fork()
         self.havoc(s1, c.modifies(self, s1, a))
+        if hasattr(c, "prepare_call"):
+            c.prepare_call(self, s1, a, None)      # e.g. give a freshly constructed object its (fresh) fields
         res = c.result(self, s1, a)
         for label, cond in c.ensures(self, old, s1, a, res):
             s1.assume(cond)
+        if hasattr(c, "refine_result"):
+            res = c.refine_result(self, old, s1, a, res)
         if getattr(c, "can_return", True) and self.feasible(s1):
             out.append(Res(s1, res))
         for q, meth in c.raises.items():
             s2 = st.fork()
             self.havoc(s2, c.modifies(self, s2, a))
+            if hasattr(c, "prepare_call"):
+                c.prepare_call(self, s2, a, q)
+            s2.trace.append("%s raises %s" % (site, q.split(".")[-1]))
             exc = self.new_exc(s2, q)
             c.exc_fields(self, s2, a, q, exc)
             for label, cond in getattr(c, meth)(self, old, s2, a, exc):
@@ -1306,6 +1412,8 @@ class Engine:
             return VSet(fresh(name, v.e.sort()), fresh(name + "_card", IntS), v.esort)
         if isinstance(v, (VObj, VNone, VModule, VFunc, VClass, VBound, VClosure)):
             return v
+        if isinstance(v, z3.ExprRef):
+            return fresh(name, v.sort())
         raise Unsupported("cannot havoc %r" % (v,))
 
     # --- inlining -----------------------------------------------------------------------------------------------------
@@ -1729,17 +1837,17 @@ class Engine:
     def loop_ordinal(self, node):
         return self.loop_ordinals[id(node)]
 
-    def cut_loop(self, node, st, guard_fn, body_prefix=None):
+    def cut_loop(self, node, st, guard_fn, extra_frame=()):
         """invariant cut.  guard_fn(state) -> list of (state, bool|None, Out|None)"""
         k = self.loop_ordinal(node)
-        c = self.cur
+        c = self.cur_contract
         a = self.cur_args
         old = self.cur_old
         inv = c.loop_inv(k, self, old, st, a)
         if inv is None:
             raise Unsupported("loop %d of %s has no invariant" % (k, c.name))
         for label, cond in inv:
-            self.oblige(st, "inv-init@loop%d[%s]" % (k, label), cond, kind="inv")
+            self.oblige(st, "inv-init@loop%d[%s]" % (k, label), cond.formula(st) if isinstance(cond, QInv) else cond, kind="inv")
         # havoc
         h = st.fork()
         names = self.assigned_names(node.body + node.orelse + ([node] if isinstance(node, ast.For) else []))
@@ -1750,10 +1858,11 @@ class Engine:
         for n in sorted(names):
             if n in h.env:
                 h.env[n] = self.fresh_like(h.env[n], n)
-        self.havoc(h, c.loop_modifies(k, self, h, a))
+        self.havoc(h, list(c.loop_modifies(k, self, h, a)) + list(extra_frame))
         h.events.append(("loop", k))
         for label, cond in c.loop_inv(k, self, old, h, a):
-            h.assume(cond)
+            h.assume(cond.formula(h) if isinstance(cond, QInv) else cond)
+        head = h.fork()
         h.trace.append("L%d:loop%d" % (node.lineno, k))
         outs = []
         for s2, enter, pre_out in guard_fn(h):
@@ -1773,8 +1882,23 @@ class Engine:
                     s3 = bo.st
                     if isinstance(node, ast.For):
                         self.for_advance(node, s3)
+                    for label, fact in c.loop_hints(k, self, old, head, s3, a):
+                        # lemma hints: proved from the path (usually one instance of a quantified definition), then assumed
+                        self.oblige(s3, "hint@loop%d[%s]" % (k, label), fact, kind="lemma")
+                        s3.assume(fact)
                     for label, cond in c.loop_inv(k, self, old, s3, a):
-                        self.oblige(s3, "inv-keep@loop%d[%s]" % (k, label), cond, kind="inv")
+                        if isinstance(cond, QInv):
+                            n_h, n_3 = cond.bound(head), cond.bound(s3)
+                            k0 = fresh("k0", IntS)
+                            sf = s3.fork()
+                            sf.assume(0 <= k0, k0 < n_h, cond.body(head, k0))
+                            self.oblige(sf, "inv-keep@loop%d[%s:frame]" % (k, label), z3.Implies(k0 < n_3, cond.body(s3, k0)), kind="inv")
+                            self.oblige(s3, "inv-keep@loop%d[%s:grows<=1]" % (k, label), n_3 <= n_h + 1, kind="inv")
+                            sn = s3.fork()
+                            sn.assume(n_3 == n_h + 1)
+                            self.oblige(sn, "inv-keep@loop%d[%s:new]" % (k, label), cond.body(s3, n_h), kind="inv")
+                        else:
+                            self.oblige(s3, "inv-keep@loop%d[%s]" % (k, label), cond, kind="inv")
                     self.check_shapes(h, s3, names, k)
                 elif bo.kind == "break":
                     outs.append(Out("next", bo.st))
@@ -1861,12 +1985,25 @@ class Engine:
             k += 1
 
     def verify(self, c):
-        """generate the obligations of one function under contract"""
+        """generate the obligations of one function under contract (once per declared setup variant)"""
+        ok = True
+        for variant in getattr(c, "variants", (None,)):
+            c.variant = variant
+            ok = self._verify(c, variant) and ok
+        return ok
+
+    def _verify(self, c, variant):
         n0 = len(self.obligations)
         self.cur = c
+        if variant is not None:
+            self.cur = type("V", (), {"name": "%s<%s>" % (c.name, variant)})()
+            for attr in ("sum_function", "local_abstraction"):
+                if hasattr(c, attr):
+                    setattr(self.cur, attr, getattr(c, attr))
         try:
             mod, fnode = self.contract_fnode(c)
             self.cur_module = mod
+            self.cur_contract = c
             self.number_loops(fnode)
             st = State()
             a = c.setup(self, st)
@@ -1894,7 +2031,7 @@ class Engine:
                     s.trace.append("exit:return")
                     for label, cond in c.ensures(self, old, s, a, res):
                         self.oblige(s, "post[%s]#p%d" % (label, npaths), cond)
-                    self.oblige(s, "vacuity:canary#p%d" % npaths, z3.BoolVal(False), kind="canary")
+                    self.canary(s, "return", npaths)
                 elif o.kind == "raise":
                     self.check_raise(c, old, s, a, o.val, npaths)
                 else:
@@ -1908,6 +2045,14 @@ class Engine:
         finally:
             self.cur = None
 
+    def canary(self, s, kind, npaths):
+        """vacuity guard: `False` must be refuted on some exit path of each kind (at most 2 per kind are emitted)"""
+        key = (self.cur.name, kind)
+        n = self._canaries.get(key, 0)
+        if n < 2:
+            self._canaries[key] = n + 1
+            self.oblige(s, "vacuity:canary[%s]#p%d" % (kind.split(".")[-1], npaths), z3.BoolVal(False), kind="canary")
+
     def check_raise(self, c, old, s, a, exc, npaths):
         vc = s.get(exc, "__cls__")
         s.trace.append("exit:raise %s" % (vc.qname or "<user class>"))
@@ -1920,7 +2065,7 @@ class Engine:
             q, m = hit[0]
             for label, cond in getattr(c, m)(self, old, s, a, exc):
                 self.oblige(s, "xpost[%s:%s]#p%d" % (q.split(".")[-1], label, npaths), cond)
-            self.oblige(s, "vacuity:canary#p%d" % npaths, z3.BoolVal(False), kind="canary")
+            self.canary(s, q, npaths)
             return
         conds = [sub(vc.term, CL.term(q)) for q, m in declared]
         self.oblige(s, "noescape[<user class>]#p%d" % npaths, z3.Or(conds) if conds else z3.BoolVal(False), kind="noescape")
@@ -1929,6 +2074,29 @@ class Engine:
             s2.assume(sub(vc.term, CL.term(q)))
             for label, cond in getattr(c, m)(self, old, s2, a, exc):
                 self.oblige(s2, "xpost[%s:%s]#p%d" % (q.split(".")[-1], label, npaths), cond)
+
+
+_qcache = {}
+
+
+def _has_quantifier(e):
+    k = e.get_id()
+    if k in _qcache:
+        return _qcache[k]
+    r = False
+    todo = [e]
+    seen = set()
+    while todo:
+        x = todo.pop()
+        if x.get_id() in seen:
+            continue
+        seen.add(x.get_id())
+        if z3.is_quantifier(x):
+            r = True
+            break
+        todo.extend(x.children())
+    _qcache[k] = r
+    return r
 
 
 def int_to_str(e):
